@@ -35,6 +35,7 @@ pub fn child(args: &[String]) -> i32 {
         Some("c10parry") => c10::debug_parry(),
         Some("c05debug") => c05::debug(&args[1]),
         Some("c05debug2") => c05::debug2(&args[1]),
+        Some("robotdebug") => c05::debug3(&args[1]),
         Some("c10tri") => c10::debug_tri(),
         Some("c10scale") => c10::debug_scale(),
         _ => 2,
